@@ -105,6 +105,7 @@ struct E2 : Engine {
 				else if(x < 83){ o["op"] = "remove"; o["k"] = (int)r.below(nkeys); }
 				else if(x < 92){ o["op"] = "tick"; o["s"] = r.below(8) == 0 ? 40 + (int)r.below(2000) : 1 + (int)r.below(5); }
 				else if(x < (process ? 94u : 93u)){ o["op"] = "clear"; }
+				else if(process && x < 96 && r.below(3) == 0){ o["op"] = "storm"; o["n"] = 5 + (int)r.below(60); unsigned y = r.below(4); o["klen"] = y == 0 ? mem_kb*1024/5 : y == 1 ? mem_kb*1024/6 + (int)r.below(4000) : y == 2 ? 20 + (int)r.below(200) : mem_kb*1024/9; }
 				else { o["op"] = "stats"; }
 			}
 			ops.push(o);
@@ -217,9 +218,12 @@ struct E2 : Engine {
 	static void do_clear(Ctx &c){
 		c.cache->clear(); for(auto &m:c.cands) m.clear(); c.cands.resize(1); c.cnt["clear"]++; c.invalidated = true;
 		if(c.process){
-			size_t av = cppcms::impl::process_settings::process_memory->max_available();
+			// total free bytes: every free page costs a 16-byte header, and where the surviving allocations (cache object, bucket
+			// arrays) end up after failed allocations changes the page structure - hence a slack of 64 headers; a real leak
+			// (a node or string that is never given back) accumulates beyond it
+			size_t av = cppcms::impl::process_settings::process_memory->available();
 			if(!c.have_baseline){ c.baseline_avail = av; c.have_baseline = true; }
-			else { c.cnt["leak_checks"]++; if(av != c.baseline_avail) c.fail("shared-memory-leak","after clear() max_available=" + std::to_string(av) + " but was " + std::to_string(c.baseline_avail) + " after the first clear"); }
+			else { c.cnt["leak_checks"]++; if(av + 1024 < c.baseline_avail) c.fail("shared-memory-leak","after clear() " + std::to_string(av) + " bytes of shared memory are free but " + std::to_string(c.baseline_avail) + " were free after the first clear (" + std::to_string(c.baseline_avail - av) + " bytes not given back)"); }
 		}
 	}
 	static void final_sweep(Ctx &c,int nkeys_hint){
@@ -263,6 +267,10 @@ struct E2 : Engine {
 				else if(op == "clear") do_clear(c);
 				else if(op == "tick"){ int64_t s = std::max<int64_t>(0,std::min<int64_t>(o.geti("s"),100000)); simk::advance_us(s*1000000); c.cnt["tick"]++; for(auto &kv:c.M().m) if(kv.second.deadline < c.now()) { c.invalidated = true; break; } }
 				else if(op == "stats") { c.cnt["stats"]++; }
+				else if(op == "storm" && c.process){ // a burst of stores whose long keys exhaust the segment while a node is being built, then a clear
+					int n = (int)std::max<int64_t>(1,std::min<int64_t>(o.geti("n",20),300)); size_t klen = (size_t)std::max<int64_t>(16,std::min<int64_t>(o.geti("klen",100000),4<<20));
+					for(int q=0;q<n && res.ok;q++){ std::string lk((size_t)klen,(char)('a' + q % 26)); lk += std::to_string(q); std::set<std::string> tr; if(q % 3 == 0) tr.insert(std::string(klen/2,'t')); c.cache->store(lk,make_val((int)i,(int)(q % 7) * 100),tr,c.now() + 50); if(q % 5 == 4) c.cache->clear(); }
+					c.cnt["alloc_storms"]++; do_clear(c); }
 				else if(iface){
 					int dl = (int)o.geti("dl"); bool nt = o.geti("nt");
 					int64_t deadline = dl < 0 ? (int64_t)(0x7FFFFFFFFFFFFFFFULL - 3600*24) : c.now() + dl;
